@@ -219,6 +219,28 @@ func drawC18Subject(t *rapid.T) c18Subject {
 		if err != nil {
 			t.Fatalf("VERIF-INFRA: %v", err)
 		}
+		if rapid.IntRange(0, 2).Draw(t, "nonutf8") == 0 {
+			// free-text values that are not valid UTF-8 (the setters and
+			// validation accept any non-empty text)
+			bad := rapid.SampledFrom(nonUTF8Texts).Draw(t, "nonutf8.text")
+			if scs, gerr := c.GetSoftwareComponents(); gerr == nil && len(scs) > 0 {
+				sc := scs[rapid.IntRange(0, len(scs)-1).Draw(t, "nonutf8.comp")]
+				switch rapid.IntRange(0, 3).Draw(t, "nonutf8.field") {
+				case 0:
+					_ = sc.SetMeasurementType(bad)
+				case 1:
+					_ = sc.SetVersion("1.4." + bad)
+				case 2:
+					_ = sc.SetMeasurementDesc(bad)
+				default:
+					_ = sc.SetVersion(bad)
+					_ = sc.SetMeasurementType(bad)
+				}
+			}
+			if genBool.Draw(t, "nonutf8.vsi") {
+				_ = c.SetVSI("https://v.example/" + bad)
+			}
+		}
 		return c18Subject{desc: kind, claims: c, sparse: len(m.Comps) == 0 || m.CertRef == nil || m.VSI == nil}
 	case "extension":
 		m = GenValid(t, p, true)
@@ -244,7 +266,32 @@ func drawC18Subject(t *rapid.T) c18Subject {
 		t.Fatalf("VERIF-INFRA: cannot sign: %v", err)
 	}
 	if kind == "evidence-decoded" {
-		ev, err := psatoken.DecodeEvidenceFromCOSE(st.Tok)
+		// the library's own envelope, or the same payload in an envelope with
+		// parameters in the unprotected header (a key id equal to / different
+		// from the instance-id hash, of other lengths, other labels) or
+		// further protected parameters
+		tok := st.Tok
+		if env := rapid.IntRange(0, 5).Draw(t, "envelope"); env > 0 {
+			unprot, prot := icbor.Map(), icose.ProtectedAlg(kp.Alg)
+			kid := drawBytes(t, rapid.SampledFrom([]int{32, 32, 33, 16, 0, 64}).Draw(t, "kid.len"), "kid")
+			if m.InstID != nil && len(*m.InstID) == 33 && env == 1 {
+				kid = append([]byte{}, (*m.InstID)[1:]...)
+			}
+			switch env {
+			case 1, 2, 3:
+				unprot = icbor.Map(icbor.P(icbor.U(4), icbor.Bstr(kid)))
+			case 4:
+				unprot = icbor.Map(icbor.P(icbor.U(4), icbor.Bstr(kid)), icbor.P(icbor.U(5), icbor.Bstr(kid)), icbor.P(icbor.U(99), icbor.Tstr("x")))
+			default:
+				prot = icbor.Encode(icbor.Map(icbor.P(icbor.U(1), icbor.I(kp.Alg)), icbor.P(icbor.U(4), icbor.Bstr(kid))))
+			}
+			sig, serr := icose.Sign(kp.Alg, kp.Priv, prot, st.Parts.Payload)
+			if serr != nil {
+				t.Fatalf("VERIF-INFRA: %v", serr)
+			}
+			tok = icbor.Encode(icose.Envelope(prot, unprot, st.Parts.Payload, sig))
+		}
+		ev, err := psatoken.DecodeEvidenceFromCOSE(tok)
 		if err != nil {
 			t.Fatalf("own token does not decode: %v", err)
 		}
